@@ -15,7 +15,7 @@ TITLE = "Deserialization is total and obeys implicit truncation / zero extension
 RULE = (
     "Cases are (type spec, byte string, flags): specs from G-TYPE (capacities <= 12, nested delimited members), bytes that are uniformly "
     "random (length 0..2x the longest representation), a prefix of a valid representation, a valid representation with 1..3 flipped bits "
-    "(hitting length prefixes, tags, delimiter headers), a valid representation followed by junk, or all-0xFF; with and without the "
+    "(hitting length prefixes, tags, delimiter headers), a valid representation followed by junk, a valid representation with one delimiter header made smaller or larger, or all-0xFF; with and without the "
     "top-level delimiter header.  Oracles: exception whitelist (SerDesError / ValueError); differential against an independent decoder "
     "(value, or error category array-length / union-tag / delimiter-header / UTF-8); fixed point deserialize(serialize(x)) == x; implicit "
     "truncation (junk after a complete representation ignored); zero extension (b and b+zeros decode alike unless b fails on a delimiter "
@@ -41,7 +41,18 @@ def _derive_bytes(spec: typing.Any, case: typing.Any, with_header: bool) -> typi
         return bytes.fromhex(case["bytes"]), None, kind
     if kind == "ones":
         return b"\xff" * (case["n"] % 80), None, kind
-    valid = codec.bits_to_bytes(codec.encode(spec, case["value"], with_header).bits)
+    enc = codec.encode(spec, case["value"], with_header)
+    valid = codec.bits_to_bytes(enc.bits)
+    if kind == "header":
+        # tamper with one delimiter header (smaller: an older writer / bytes left over; larger: overrun), keep the rest
+        if not enc.headers:
+            return valid, valid, "header:none"
+        pos, n = enc.headers[case["which"] % len(enc.headers)]
+        new = case["new"] % (n + 3) if case["new"] % 4 else max(0, n - 1 - case["new"] % 3)
+        bits = list(enc.bits)
+        for i in range(32):
+            bits[pos + i] = (new >> i) & 1
+        return codec.bits_to_bytes(bits), valid, "header:" + ("smaller" if new < n else "same" if new == n else "larger")
     if kind == "prefix":
         n = case["cut"] % (len(valid) + 1)
         return valid[:n], valid, kind
@@ -82,7 +93,7 @@ def check_bytes(case: typing.Any, ctx: Ctx) -> Info:
             sig = "decoded-value"
         raise Violation(sig, exp, got, detail)
 
-    classes = ["kind:" + kind, "outcome:" + (got[1] if got[0] == "error" else "ok"), "top:" + spec[0]] + (["with-header"] if with_header else [])
+    classes = ["kind:" + kind.split(":")[0]] + (["tamper:" + kind] if ":" in kind else []) + [ "outcome:" + (got[1] if got[0] == "error" else "ok"), "top:" + spec[0]] + (["with-header"] if with_header else [])
 
     if got[0] == "ok":
         # fixed point: the returned object is valid for the type
@@ -140,10 +151,13 @@ def _cases() -> st.SearchStrategy:
                 base["cut"] = st.integers(0, 4096)
             elif kind == "flip":
                 base["flips"] = st.lists(st.integers(0, 1 << 16), min_size=1, max_size=3)
+            elif kind == "header":
+                base["which"] = st.integers(0, 7)
+                base["new"] = st.integers(0, 1 << 10)
         base["junk"] = st.binary(min_size=1, max_size=12).map(bytes.hex)
         return st.fixed_dictionaries(base)
 
-    kinds = st.sampled_from(["random", "random", "prefix", "prefix", "flip", "flip", "junk", "ones"])
+    kinds = st.sampled_from(["random", "prefix", "prefix", "flip", "flip", "flip", "junk", "ones", "header", "header"])
     return st.tuples(specs, kinds, st.booleans()).flatmap(with_bytes)
 
 
